@@ -30,9 +30,12 @@ GRAMMARS = [
     'start = { item ~ (("," | ";") ~ item)* ~ EOI }\nitem = @{ ASCII_DIGIT+ }\nWHITESPACE = _{ "," | ";" }\n',
     'start = { ("a" | "b" | "ab")+ ~ (^"a" | ^"b")? }\n',
     'start = { (^"a" | ^"b")+ ~ ("a" | "b" | "ab")? ~ EOI }\n',
+    # the same rule name used as the operand of a skip-until pattern in two grammars
+    'start = @{ "[" ~ (!stop ~ ANY)* ~ ">" }\nstop = { "]" }\n',
+    'start = { "<" ~ body ~ ">" }\nbody = @{ (!stop ~ ANY)* }\nstop = { ">" | "]" }\n',
 ]
 INPUTS = ["ab  \t cd", "ab  cd", "ab cd", "1,;2", "1,2;3", "abAB", "ABab", "", "a", "ab", "ff!", "xyz", "a1\n", "a b\n", "1, 2.5,3", "1,", "ab=ab", "ab=ac", "wordb", "word", "#c#x\n",
-          "é 5", "g", "A\r\n", "12", "ab ab a"]
+          "é 5", "g", "A\r\n", "12", "ab ab a", "[ab]", "[ab>", "<ab]", "<ab>"]
 MODES = ("I", "O", "IG", "OG")
 
 
@@ -47,6 +50,48 @@ def fingerprint():
                                   for s in DEFAULT_OPTIMIZER_PASSES)))
     parts.append(("default-optimizer-passes", tuple(s.name for s in DEFAULT_OPTIMIZER.passes)))
     return tuple(parts)
+
+
+def hidden_state():
+    """Every piece of process-wide MUTABLE state in the pest package a later call could read: mutable default
+    arguments of functions and methods, and module-level list / dict / set objects. (Not a verdict by itself:
+    a change is reported as a broken monitor; a result that depends on it is found by the comparison with a
+    fresh process.)"""
+    import types
+    out = []
+    for mname in sorted(sys.modules):
+        if mname != "pest" and not mname.startswith("pest."):
+            continue
+        mod = sys.modules[mname]
+        for aname, val in sorted(vars(mod).items(), key=lambda kv: kv[0]):
+            if aname.startswith("__"):
+                continue
+            if isinstance(val, (list, dict, set)) and aname not in ("BUILTIN",):
+                out.append((mname, aname, _digest(val)))
+            funcs = []
+            if isinstance(val, types.FunctionType) and val.__module__ == mname:
+                funcs.append((aname, val))
+            elif isinstance(val, type) and val.__module__ == mname:
+                for fname, f in vars(val).items():
+                    f = getattr(f, "__func__", f)
+                    if isinstance(f, types.FunctionType):
+                        funcs.append((aname + "." + fname, f))
+                    elif isinstance(f, (list, dict, set)):
+                        out.append((mname, aname + "." + fname, _digest(f)))
+            for fname, f in funcs:
+                for d in (f.__defaults__ or ()) + tuple((f.__kwdefaults__ or {}).values()):
+                    if isinstance(d, (list, dict, set)):
+                        out.append((mname, fname + "(default)", _digest(d)))
+    return tuple(out)
+
+
+def _digest(v):
+    try:
+        if isinstance(v, dict):
+            return ("dict", len(v), tuple(sorted(map(repr, v))[:50]))
+        return (type(v).__name__, len(v), tuple(sorted(map(repr, v))[:50]))
+    except Exception:  # noqa: BLE001
+        return (type(v).__name__, len(v))
 
 
 def shape(e):
@@ -72,15 +117,17 @@ def call(b, mode: str, text: str, k: int = 0, timeout=2.0):
 
 
 def fresh_eval(args):
-    """Runs in a brand-new interpreter process (maxtasksperchild=1, spawn): one process per
-    (grammar, mode); inside it every input gets a newly created parser object."""
-    gi, mode, texts = args
+    """Runs in a brand-new interpreter process (maxtasksperchild=1, spawn): one process per (grammar, mode,
+    order); the parser is built ONCE — the first and only parser of that process, so no earlier parser can
+    have influenced it — and the texts are parsed in the given order. Two processes with opposite orders
+    are run per (grammar, mode): a text whose result differs between them depends on earlier parse() calls."""
+    gi, mode, texts, rev = args
     sys.setrecursionlimit(3000)
     out = {}
-    for text in texts:
-        b = make(gi, mode)
+    b = make(gi, mode)
+    for text in (reversed(texts) if rev else texts):
         out[(gi, mode, text)] = call(b, mode, text)
-    return out
+    return rev, out
 
 
 def run_history(args):
@@ -90,6 +137,7 @@ def run_history(args):
     objs = []
     problems = []
     fp0 = fingerprint()
+    hs0 = hidden_state()
     observed = []
     for step in range(length):
         op = rng.choice(["new", "new", "parse", "parse", "parse", "generate", "fail"])
@@ -113,6 +161,12 @@ def run_history(args):
             problems.append({"what": f"shared process-wide object changed by operation #{step} ({op}): {diff[:5]}",
                              "seed": seed, "step": step})
             fp0 = fp
+        hs = hidden_state()
+        if hs != hs0:
+            diff = [f"{a[0]}.{a[1]}" for a in hs if a not in hs0]
+            problems.append({"what": f"process-wide mutable state of the pest package changed during operation #{step} "
+                                     f"({op}): {diff[:5]}", "seed": seed, "step": step, "monitor": True})
+            hs0 = hs
     return seed, observed, problems
 
 
@@ -161,7 +215,10 @@ def check(tier: str, seed: int):
     with ctx.Pool(NCPU) as pool:
         for s, observed, problems in pool.imap_unordered(run_history, [(seed * 10000 + i, length) for i in range(nhist)]):
             for p in problems:
-                res.violations.append({"what": p["what"], "replay": p})
+                if p.get("monitor"):
+                    res.tie_breaks.append(p)
+                else:
+                    res.violations.append({"what": p["what"], "replay": p})
             observed_all.extend((s, *o) for o in observed)
     # baseline: every distinct (grammar, mode, text) in a fresh interpreter process
     keys = sorted({(gi, mode, text) for _s, gi, mode, text, _r, _st in observed_all})
@@ -170,10 +227,19 @@ def check(tier: str, seed: int):
         groups.setdefault((gi, mode), []).append(text)
     spawn = mp.get_context("spawn")
     fresh = {}
+    fresh_rev = {}
+    jobs = [(gi, mode, texts, rev) for (gi, mode), texts in groups.items() for rev in (False, True)]
     with spawn.Pool(NCPU, maxtasksperchild=1) as pool:
-        for d in pool.imap_unordered(fresh_eval, [(gi, mode, texts) for (gi, mode), texts in groups.items()],
-                                     chunksize=1):
-            fresh.update(d)
+        for rev, d in pool.imap_unordered(fresh_eval, jobs, chunksize=1):
+            (fresh_rev if rev else fresh).update(d)
+    for key, want in fresh.items():
+        if fresh_rev.get(key) != want:
+            gi, mode, text = key
+            res.violations.append({
+                "what": f"parse result depends on earlier parse() calls on the same object: grammar {gi} mode {mode} "
+                        f"input {text!r} (fresh process, inputs parsed in two different orders)",
+                "replay": {"grammar": GRAMMARS[gi], "mode": mode, "text": text, "forward": str(want)[:300],
+                           "reverse": str(fresh_rev.get(key))[:300]}})
     for s, gi, mode, text, r, step in observed_all:
         want = fresh[(gi, mode, text)]
         if r != want:
@@ -191,7 +257,8 @@ def check(tier: str, seed: int):
                 "one of the four modes, generate(), succeeding and failing parses) in long-lived worker processes; every "
                 "observed parse result (tree, or failure position and expected/unexpected sets) is compared with the "
                 "same call in a brand-new interpreter process; the structure of Parser.BUILTIN and of the default "
-                "optimizer's pass list is fingerprinted after every operation; 8 threads x shared parser objects vs "
+                "optimizer's pass list is fingerprinted after every operation, and so is every mutable default argument and "
+                "module-level list / dict / set of the pest package (hidden process-wide state); 8 threads x shared parser objects vs "
                 "sequential results with switch interval 1e-6. distinct_nontrivial = distinct (grammar, mode, input) "
                 "triples observed.")
     res.samples = [f"grammar {GRAMMARS[0].strip()} mode O input 'ff!'"]
